@@ -177,6 +177,19 @@ func genConsts(repo, out string) error {
 	fmt.Fprintf(&b, "Definition gen_eco_pool : string := %s.\n", coqString(dk["EcoPool"]))
 	// how often the dispensation module is listed in SetOrderBeginBlockers
 	fmt.Fprintf(&b, "Definition gen_dispensation_begin_blockers : Z := %d%%Z.\n", countOrder(repo, "SetOrderBeginBlockers", []string{"disptypes.ModuleName", "dispensation.ModuleName"}))
+	// oracle consensus threshold: the constant and whether app.go wires it into the keeper
+	oc := Consts(repo, "x/oracle/types/prophecy.go")
+	thr := -1
+	if f, err := strconv.ParseFloat(oc["DefaultConsensusNeeded"], 64); err == nil {
+		thr = int(f*1000 + 0.5)
+	}
+	fmt.Fprintf(&b, "Definition gen_consensus_needed_times_1000 : Z := %d%%Z.\n", thr)
+	appSrc, _ := os.ReadFile(filepath.Join(repo, "app/app.go"))
+	wired := 0
+	if strings.Contains(string(appSrc), "oracletypes.DefaultConsensusNeeded") {
+		wired = 1
+	}
+	fmt.Fprintf(&b, "Definition gen_oracle_keeper_uses_default_threshold : Z := %d%%Z.\n", wired)
 	return writeV(out, "Consts.v", b.String())
 }
 
